@@ -20,8 +20,40 @@ def q_uc_atoms(c, A, ctx):
     return c.unit_cell_atoms()
 
 
+# ---- the *type* of an argument is the caller's choice too (always the same
+# one for a given crystal): lists, tuples, integer/float arrays, a slice for a
+# contiguous atom group, a row view of a larger array for a point
+def _bounds_arg(A):
+    lo, hi = list(A["bounds"][0]), list(A["bounds"][1])
+    style = A.get("arg_style")
+    if style == "alt":
+        return (tuple(lo), tuple(hi))
+    if style == "alt2":
+        return np.array([lo, hi])
+    return [lo, hi]
+
+
+def _origin_arg(A):
+    style = A.get("arg_style")
+    if style == "alt":
+        return [float(x) for x in A["origin"]]
+    if style == "alt2":
+        return np.array([A["origin"], [9.0, 9.0, 9.0]], dtype=float)[0]
+    return np.array(A["origin"], dtype=float)
+
+
+def _atoms_arg(A):
+    atoms = sorted(A["atoms"])
+    style = A.get("arg_style")
+    if style == "alt":
+        return slice(atoms[0], atoms[-1] + 1)
+    if style == "alt2":
+        return np.array(atoms)
+    return list(atoms)
+
+
 def q_slab(c, A, ctx):
-    bounds = _kept(ctx, "bounds", lambda: [list(A["bounds"][0]), list(A["bounds"][1])])
+    bounds = _kept(ctx, "bounds", lambda: _bounds_arg(A))
     return c.slab(bounds=bounds)
 
 
@@ -51,7 +83,7 @@ def q_mol_dict(c, A, ctx):
 
 
 def q_air(c, A, ctx):
-    origin = _kept(ctx, "origin", lambda: np.array(A["origin"], dtype=float))
+    origin = _kept(ctx, "origin", lambda: _origin_arg(A))
     return c.atoms_in_radius(A["r"], origin=origin)
 
 
@@ -69,7 +101,7 @@ def _kept(ctx, key, make):
 
 def q_agsur(c, A, ctx):
     # the same list object on every call (the library must not edit its arguments)
-    return c.atom_group_surroundings(_kept(ctx, "atoms", lambda: list(A["atoms"])), A["r"])
+    return c.atom_group_surroundings(_kept(ctx, "atoms", lambda: _atoms_arg(A)), A["r"])
 
 
 def q_menv1(c, A, ctx):
@@ -347,8 +379,8 @@ def q_atomic_sd(c, A, ctx):
 
 
 def q_group_sd(c, A, ctx):
-    n = len(c.asymmetric_unit)
-    return c.shape_descriptors(kind="atom_group", atoms=sorted({0, n // 2}), l_max=2, radius=min(A["r"], 3.8))
+    return c.shape_descriptors(kind="atom group", atoms=_kept(ctx, "atoms", lambda: _atoms_arg(A)), l_max=2,
+                               radius=min(A["r"], 3.8))
 
 
 def q_fgroup(c, A, ctx):
